@@ -840,9 +840,11 @@ func (v *Verifier) execBlock(b *ssa.BasicBlock, pred *ssa.BasicBlock, st *State)
 			if lo.spec == nil || len(lo.spec.Exits) == 0 || !lo.body[pred] || lo.body[b] || lo.head == b {
 				continue
 			}
-			if len(b.Instrs) > 0 {
+			if len(b.Instrs) > 0 && pred != lo.head {
 				if _, isRet := b.Instrs[len(b.Instrs)-1].(*ssa.Return); isRet {
-					continue // a return from inside the loop is not an exit to the code after it
+					// a return from inside the loop body is not an exit to the code after it (an edge from the loop
+					// head is the loop condition failing, even when the code after the loop returns at once)
+					continue
 				}
 			}
 			cur := make([]Value, len(lo.phis))
